@@ -455,17 +455,15 @@ type checkResult struct {
 }
 
 // checkHistory runs the checkers: the own search (primary, fast thanks to the reductions) and
-// porcupine as an independent second opinion under a short timeout; when the own search says
-// "illegal" porcupine gets a long timeout to confirm. paranoid adds the reduction-free search.
+// porcupine as an independent second opinion under a short timeout (confirmPorcupine gives it a
+// long one for the histories that are written out as findings). paranoid adds the reduction-free
+// search.
 func checkHistory(h []record, paranoid bool) checkResult {
 	res := checkResult{}
 	res.own = checkOwn(h, 400000)
 	res.porc = checkPorcupine(h, 100*time.Millisecond)
-	if res.own == linIllegal && res.porc == linUnknown {
-		res.porc = checkPorcupine(h, 30*time.Second)
-	}
 	if res.own == linUnknown && res.porc == linUnknown {
-		res.porc = checkPorcupine(h, 10*time.Second)
+		res.porc = checkPorcupine(h, 5*time.Second)
 	}
 	verdicts := []verdict{res.own, res.porc}
 	if paranoid {
@@ -541,4 +539,16 @@ func selfTestCheckers() error {
 		}
 	}
 	return nil
+}
+
+// confirmPorcupine gives porcupine a long timeout on a history the own search found illegal and
+// porcupine could not decide quickly. An "ok" from porcupine is a checker disagreement.
+func confirmPorcupine(h []record, res *checkResult) {
+	if res.v != linIllegal || res.porc != linUnknown {
+		return
+	}
+	res.porc = checkPorcupine(h, 10*time.Second)
+	if res.porc == linOK {
+		res.err = fmt.Errorf("checkers disagree: own=%v porcupine=%v", res.own, res.porc)
+	}
 }
